@@ -144,11 +144,10 @@ def check_centroid(run, S, name, spec, kw):
     res = flat(cv.val(leaf['v']))
     fold_t = e['ret']
     foldv = [cv.el_proj(fold_t, i) for i in range(n)] if hasattr(cv, 'el_proj') else None
-    cnt = A.fn('proj', A.fn('variant', A.fn('numcast', A.fn('len', El.v('a0'))), El.c(1)), El.c(0))
     okr = len(res) == n
     texts = [S.showval(x) for x in leaf['v']['a']]
     import re
-    pat_ok = all(re.search(r'proj\(fold\(.*\), %d\) / proj\(variant\(numcast\(len\(a0\)\), 1\), 0\)' % i, t.replace('\n', '')) for i, t in enumerate(texts))
+    pat_ok = all(re.search(r'proj\(fold\(.*\), %d\) / proj\(variant\(numcast\(len\(a0\), "S/#0"\), 1\), 0\)' % i, t.replace('\n', '')) for i, t in enumerate(texts))
     run.ob(key + ':result', okr and pat_ok, rule='K7 fold pattern', expected='from_vec(total / cast(points.len()))  component-wise', found=texts[:3], where=where)
     # the cast of len must be unwrapped only on success: the other leaves panic
     allk = sorted({l['k'] for g_, l in ret_leaves(r['out'])})
